@@ -21,9 +21,10 @@ func VerifC12NewLock(ctx context.Context, repo *Repository, exclusive bool) (*Ve
 	return &VerifC12Lock{h}, nil
 }
 
-func (l *VerifC12Lock) Refresh(ctx context.Context) error { return l.h.refresh(ctx) }
-func (l *VerifC12Lock) Unlock(ctx context.Context) error  { return l.h.unlock(ctx) }
-func (l *VerifC12Lock) ID() restic.ID                     { return *l.h.lockID }
+func (l *VerifC12Lock) Refresh(ctx context.Context) error      { return l.h.refresh(ctx) }
+func (l *VerifC12Lock) Unlock(ctx context.Context) error       { return l.h.unlock(ctx) }
+func (l *VerifC12Lock) RefreshStale(ctx context.Context) error { return l.h.refreshStaleLock(ctx) }
+func (l *VerifC12Lock) ID() restic.ID                          { return *l.h.lockID }
 
 func VerifC12IsInvalidLock(err error) bool { return isInvalidLock(err) }
 
